@@ -398,12 +398,46 @@ def client_backlog_scenario(sid, bigsize=1000000, small=2300):
     return {"id": sid, "role": "", "steps": steps}
 
 
+def deep_pipeline_scenario(sid, n=1500, local=True, forwarded=True):
+    """One request whose node is slow, and behind it, in the same pipeline, far more than a thousand requests that are
+    complete long before it (answered by the proxy itself, or by a fast node): when the slow reply arrives all of them
+    are owed at once."""
+    step = lambda stim, settle=True: {"stim": stim, "settle": settle, "noIter": False}
+    reqs = [{"k": "get", "slots": ["A"], "args": [], "dups": [-1]}]
+    for x in range(n):
+        if local and (not forwarded or x % 2 == 0):
+            reqs.append({"k": "ping", "slots": [], "args": [], "dups": []})
+        else:
+            reqs.append({"k": "get" if x % 3 else "set", "slots": ["B"], "args": [], "dups": [-1]})
+    steps = [step([_st(op="send", c="c1", reqs=reqs[b:b + 100])]) for b in range(0, len(reqs), 100)]
+    steps.append(step([_st(op="answer", n="n2", kind="ok", count=n)]))
+    steps += [step([]) for _ in range(2)]
+    steps.append(step([_st(op="answer", n="n1", kind="ok", count=1)]))
+    steps += [step([]) for _ in range(3)]
+    return {"id": sid, "role": "", "steps": steps}
+
+
+def many_replies_scenario(sid, n=3000, spread=False):
+    """Thousands of requests of one client in flight on one node, which then answers all of them at once: the proxy gets
+    far more than a thousand complete replies in a single read, and the node is quiet afterwards."""
+    step = lambda stim, settle=True: {"stim": stim, "settle": settle, "noIter": False}
+    slots = ["A", "B", "C"] if spread else ["A"]
+    steps = []
+    for b in range(0, n, 100):
+        steps.append(step([_st(op="send", c="c1", reqs=[{"k": "get" if x % 3 else "set", "slots": [slots[x % len(slots)]], "args": [], "dups": [-1]}
+                                                        for x in range(min(100, n - b))])]))
+    steps.append(step([_st(op="answer", n=nn, kind="ok", count=n) for nn in (("n1", "n2", "n3") if spread else ("n1",))]))
+    steps += [step([]) for _ in range(3)]
+    return {"id": sid, "role": "", "steps": steps}
+
+
 BP_CFG = {"masters": 3, "mode": "step", "rawLog": True, "smallBuf": True}
 BP_CFG_MID = {"masters": 3, "mode": "step", "rawLog": True, "sockBuf": 65536}
 
 
 def backpressure_scenarios(quick):
-    scs = [backend_backpressure_scenario("bp-backend-1"), slow_reader_interleaved_scenario("bp-slow-reader-1")]
+    scs = [backend_backpressure_scenario("bp-backend-1"), slow_reader_interleaved_scenario("bp-slow-reader-1"),
+           slow_reader_interleaved_scenario("bp-slow-reader-fine", bigsize=200000, rounds=24, chunk=10000)]
     if not quick:
         scs += [backend_backpressure_scenario("bp-backend-2", nbig=30, bigsize=9000, rounds=8, chunk=25000),
                 backend_backpressure_scenario("bp-backend-3", nbig=6, bigsize=60000, rounds=6, chunk=70000),
